@@ -672,14 +672,22 @@ impl<'lexer> Lexer<'lexer> {
     // ------------------------------------------------------------------------
     // tweak with built-in type names
     // ------------------------------------------------------------------------
-    if self.type_name
-      && matches!(
-        name.to_string().as_str(),
-        "Any" | "Null" | "boolean" | "number" | "string" | "date" | "date and time" | "time" | "years and months duration" | "days and time duration"
-      )
-    {
-      self.type_name = false;
-      return Ok((TokenType::BuiltInTypeName, TokenValue::BuiltInTypeName(name)));
+    if self.type_name {
+      // the longest possible name may have swallowed what follows the type name (an operator,
+      // a keyword, a comment), so take the longest leading parts that make a built-in type name
+      let mut part_count = parts.len();
+      while part_count > 0 {
+        let type_name: Name = parts[..part_count].to_vec().into();
+        if matches!(
+          type_name.to_string().as_str(),
+          "Any" | "Null" | "boolean" | "number" | "string" | "date" | "date and time" | "time" | "years and months duration" | "days and time duration"
+        ) {
+          self.type_name = false;
+          self.position = consumed_positions[part_count - 1] + 1;
+          return Ok((TokenType::BuiltInTypeName, TokenValue::BuiltInTypeName(type_name)));
+        }
+        part_count -= 1;
+      }
     }
 
     // ------------------------------------------------------------------------
